@@ -6377,6 +6377,24 @@ func captureRoot(v ssa.Value) ssa.Value {
 	return v
 }
 
+// paramCellOf: the parameter a cell holds when the cell is the spill slot of a captured parameter (go/ssa stores
+// the parameter into a fresh Alloc in the entry block); nil otherwise.  Used instead of the parameter's name.
+func paramCellOf(v ssa.Value) *ssa.Parameter {
+	al, ok := v.(*ssa.Alloc)
+	if !ok || al.Parent() == nil || len(al.Parent().Blocks) == 0 {
+		return nil
+	}
+	for _, in := range al.Parent().Blocks[0].Instrs {
+		if st, ok := in.(*ssa.Store); ok && st.Addr == ssa.Value(al) {
+			if p, ok := st.Val.(*ssa.Parameter); ok {
+				return p
+			}
+			return nil
+		}
+	}
+	return nil
+}
+
 func closureTree(f *ssa.Function) []*ssa.Function {
 	out := []*ssa.Function{f}
 	for _, a := range f.AnonFuncs {
@@ -9676,9 +9694,14 @@ func ruleRawScanStopsAtEnd(r *Run) {
 		return
 	}
 	var kEnd, out *ssa.Parameter
+	nKeys := 0
 	for _, p := range f.Params {
-		if p.Name() == "kEnd" {
-			kEnd = p
+		// the end key is the second storage.Key parameter (begin, end)
+		if typeIs(p.Type(), "storage", "Key") {
+			nKeys++
+			if nKeys == 2 {
+				kEnd = p
+			}
 		}
 		if _, ok := p.Type().Underlying().(*types.Chan); ok && out == nil {
 			out = p
@@ -9706,7 +9729,7 @@ func ruleRawScanStopsAtEnd(r *Run) {
 			// the end key, directly or as a captured variable
 			root := captureRoot(stripConv(c.Call.Args[1]))
 			isEnd := kEnd != nil && root == ssa.Value(kEnd)
-			if al, ok := root.(*ssa.Alloc); ok && al.Comment == "kEnd" {
+			if pc := paramCellOf(root); pc != nil && pc == kEnd {
 				isEnd = true
 			}
 			if !isEnd {
@@ -9837,9 +9860,10 @@ func ruleOnlyLevelZeroIndexed(r *Run) {
 		for top.Parent() != nil {
 			top = top.Parent()
 		}
+		// the scale is the function's uint8 parameter (every uint8 parameter of labelmap's block writers is one)
 		var scale *ssa.Parameter
 		for _, p := range top.Params {
-			if p.Name() == "scale" && p.Type().String() == "uint8" {
+			if p.Type().String() == "uint8" && scale == nil {
 				scale = p
 			}
 		}
@@ -9869,7 +9893,7 @@ func ruleOnlyLevelZeroIndexed(r *Run) {
 				}
 				sroot := captureRoot(stripConv(bo.X))
 				isScale := sroot == ssa.Value(scale)
-				if al, ok := sroot.(*ssa.Alloc); ok && al.Comment == "scale" {
+				if pc := paramCellOf(sroot); pc != nil && pc == scale {
 					isScale = true
 				}
 				if !isScale {
@@ -10452,9 +10476,10 @@ func ruleThresholdIncludesEquality(r *Run) {
 		r.undecided("labelsz.Data.GetLabelsByThreshold", "anchor not found")
 		return
 	}
+	// the threshold is the first parameter of a plain unsigned type (ctx, index type, minSize, offset, num)
 	var minSize *ssa.Parameter
 	for _, p := range top.Params {
-		if p.Name() == "minSize" {
+		if bt, ok := p.Type().(*types.Basic); ok && (bt.Kind() == types.Uint32 || bt.Kind() == types.Uint64) && minSize == nil {
 			minSize = p
 		}
 	}
@@ -10474,8 +10499,8 @@ func ruleThresholdIncludesEquality(r *Run) {
 				if minSize != nil && rt == ssa.Value(minSize) {
 					return true
 				}
-				al, ok := rt.(*ssa.Alloc)
-				return ok && al.Comment == "minSize"
+				pc := paramCellOf(rt)
+				return pc != nil && pc == minSize
 			}
 			op := bo.Op
 			switch {
